@@ -6,6 +6,7 @@ mod codec;
 mod drivers;
 mod explore;
 mod link;
+mod raw;
 mod sim;
 mod wiremon;
 
